@@ -115,14 +115,74 @@ def exclusion_pre(point, free_names):
 
 
 # --------------------------------------------------------------------------------------------
-def _pool_init():
-    os.environ["PYTHONDONTWRITEBYTECODE"] = "1"
-
-
-def _run(job):
+def _preload():
+    """Import CrossHair/z3 and install the worker patches once, in the parent: forked job processes inherit them."""
     from engine import worker
 
-    return worker.run_job(job)
+    worker._install()
+
+
+def _child(spec, conn):
+    import faulthandler
+
+    from engine import worker
+
+    try:
+        # last line of defence inside the child: dump the stack and exit if the job overruns its hard limit
+        faulthandler.dump_traceback_later(spec["hard"], exit=True, file=open(spec["stub"] + ".hang", "w"))
+        res = worker.run_job(spec)
+        faulthandler.cancel_dump_traceback_later()
+    except BaseException as e:  # noqa
+        res = dict(job=spec["id"], verdict="ERROR", messages=[("EXC", repr(e))], paths=0)
+    try:
+        conn.send(res)
+    finally:
+        conn.close()
+
+
+def run_specs(specs, nproc):
+    """One forked process per job, at most nproc at a time, each under a hard wall-clock limit (a job whose single path
+    never returns - a solver call or a loop that does not come back - is killed and reported UNKNOWN)."""
+    import multiprocessing.connection as mpc
+
+    ctx = mp.get_context("fork")
+    todo = list(specs)
+    todo.reverse()
+    running = {}
+    while todo or running:
+        while todo and len(running) < nproc:
+            sp = todo.pop()
+            sp["hard"] = max(60.0, 2.0 * float(sp["timeout"]) + 60.0)
+            parent, child = ctx.Pipe(duplex=False)
+            p = ctx.Process(target=_child, args=(sp, child), daemon=True)
+            p.start()
+            child.close()
+            running[parent] = (p, sp, time.time())
+        ready = mpc.wait(list(running), timeout=1.0)
+        for conn in ready:
+            p, sp, t0 = running.pop(conn)
+            try:
+                res = conn.recv()
+            except (EOFError, OSError):
+                hang = ""
+                try:
+                    hang = open(sp["stub"] + ".hang").read()[-1500:]
+                except Exception:
+                    pass
+                res = dict(job=sp["id"], verdict="UNKNOWN", messages=[("HARD_TIMEOUT", "job process ended without a result " + hang)],
+                           paths=0, wall_s=time.time() - t0, hard_timeout=True)
+            conn.close()
+            p.join(5)
+            yield res
+        now = time.time()
+        for conn, (p, sp, t0) in list(running.items()):
+            if now - t0 > sp["hard"] + 30:
+                p.kill()
+                p.join(5)
+                running.pop(conn)
+                conn.close()
+                yield dict(job=sp["id"], verdict="UNKNOWN", messages=[("HARD_TIMEOUT", "killed by the driver")], paths=0,
+                           wall_s=now - t0, hard_timeout=True)
 
 
 def load_known_file():
@@ -250,59 +310,56 @@ def main(argv=None):
                     timeout=h.tier_timeout(tier) * args.timeout_scale, per_path=h.per_path)
 
     by_id = {}
-    results_all = []
-    ctx = mp.get_context("fork")
     pending = jobs
     round_no = 0
-    with ctx.Pool(args.jobs, initializer=_pool_init, maxtasksperchild=6) as pool:
-        while pending:
-            round_no += 1
-            specs = []
-            for j in pending:
-                s = spec(j)
-                by_id[s["id"]] = j
-                specs.append(s)
-            next_pending = []
-            cex = []
-            for res in pool.imap_unordered(_run, specs):
-                j = by_id[res["job"]]
-                if os.environ.get("VERIF_PROGRESS"):
-                    log("  .. %s %s paths=%s cpu=%.1fs %s" % (res["job"], res["verdict"], res.get("paths"), res.get("wall_s", 0), json.dumps(j["cube"])))
-                j.setdefault("history", []).append(res)
-                if res["verdict"] == "COUNTEREXAMPLE":
-                    cex.append((j, res))
+    _preload()
+    while pending:
+        round_no += 1
+        specs = []
+        for j in pending:
+            s = spec(j)
+            by_id[s["id"]] = j
+            specs.append(s)
+        next_pending = []
+        cex = []
+        for res in run_specs(specs, args.jobs):
+            j = by_id[res["job"]]
+            if os.environ.get("VERIF_PROGRESS"):
+                log("  .. %s %s paths=%s cpu=%.1fs %s" % (res["job"], res["verdict"], res.get("paths"), res.get("wall_s", 0), json.dumps(j["cube"])))
+            j.setdefault("history", []).append(res)
+            if res["verdict"] == "COUNTEREXAMPLE":
+                cex.append((j, res))
+            else:
+                j["final"] = res
+        # replay all counterexamples of this round in one batch
+        items = []
+        for j, res in cex:
+            point = dict(j["cube"])
+            point.update(res.get("counterexample") or {})
+            items.append(dict(module=j["h"].module, harness=j["h"].name, args=point))
+        rr = replay_batch(items) if items else []
+        concrete_runs += len(items)
+        for (j, res), item, r in zip(cex, items, rr):
+            h = j["h"]
+            if res.get("counterexample") is None and h.free_params(tier):
+                harness_errors.append("%s: counterexample without captured arguments: %s" % (res["job"], res["messages"]))
+                j["final"] = res
+                continue
+            if r["ret"] == registry.VIOL or r["exc"]:
+                violations.append((h, item["args"], r, "solver"))
+                j["final"] = res
+            else:
+                j["spurious"] += 1
+                ex = exclusion_pre(item["args"], [p.name for p in h.free_params(tier)])
+                log("spurious counterexample (not reproduced concretely) %s %s -> ret=%s" % (res["job"], json.dumps(item["args"]), r["ret"]))
+                if j["spurious"] > MAX_SPURIOUS or ex is None:
+                    harness_errors.append("%s: persistent spurious counterexamples" % res["job"])
+                    res["verdict"] = "SPURIOUS"
+                    j["final"] = res
                 else:
-                    j["final"] = res
-            # replay all counterexamples of this round in one batch
-            items = []
-            for j, res in cex:
-                point = dict(j["cube"])
-                point.update(res.get("counterexample") or {})
-                items.append(dict(module=j["h"].module, harness=j["h"].name, args=point))
-            rr = replay_batch(items) if items else []
-            concrete_runs += len(items)
-            for (j, res), item, r in zip(cex, items, rr):
-                h = j["h"]
-                if res.get("counterexample") is None and h.free_params(tier):
-                    harness_errors.append("%s: counterexample without captured arguments: %s" % (res["job"], res["messages"]))
-                    j["final"] = res
-                    continue
-                if r["ret"] == registry.VIOL or r["exc"]:
-                    violations.append((h, item["args"], r, "solver"))
-                    j["final"] = res
-                    # keep searching this cube for *other* violations? no: one is enough to fail.
-                else:
-                    j["spurious"] += 1
-                    ex = exclusion_pre(item["args"], [p.name for p in h.free_params(tier)])
-                    log("spurious counterexample (not reproduced concretely) %s %s -> ret=%s" % (res["job"], json.dumps(item["args"]), r["ret"]))
-                    if j["spurious"] > MAX_SPURIOUS or ex is None:
-                        harness_errors.append("%s: persistent spurious counterexamples" % res["job"])
-                        res["verdict"] = "SPURIOUS"
-                        j["final"] = res
-                    else:
-                        j["extra_pre"].append(ex)
-                        next_pending.append(j)
-            pending = next_pending
+                    j["extra_pre"].append(ex)
+                    next_pending.append(j)
+        pending = next_pending
 
     # ---- 4. collect ----------------------------------------------------------------------------
     total_paths = total_q = 0
